@@ -552,3 +552,114 @@ class CallGraph:
                 if n and name_pred(n, t):
                     out.append((b, blk, t))
         return out
+
+
+# ---------------------------------------------------------------------------
+# all comparisons (whether or not they feed a switch)
+# ---------------------------------------------------------------------------
+
+def all_comparisons(body):
+    """[{'dest': local, 'lhs_op','rhs_op','lhs','rhs','rel','block','line'}]"""
+    out = []
+    for b, t in body.calls():
+        n = cname(t)
+        if n is None:
+            continue
+        m = re.match(r'core::cmp::(PartialOrd|PartialEq)::(lt|le|gt|ge|eq|ne)$', n)
+        if m and len(t['args']) == 2:
+            out.append({'dest': t['dest']['l'], 'lhs_op': t['args'][0], 'rhs_op': t['args'][1],
+                        'lhs': op_local(t['args'][0]), 'rhs': op_local(t['args'][1]),
+                        'rel': CMP_METHODS[m.group(2)], 'block': b, 'line': t['cs']})
+    for b, j, s in body.assigns():
+        rv = s['rv']
+        if rv['k'] == 'bin' and rv['op'] in CMP_BINOPS:
+            out.append({'dest': s['lhs']['l'], 'lhs_op': rv['a'], 'rhs_op': rv['b'],
+                        'lhs': op_local(rv['a']), 'rhs': op_local(rv['b']),
+                        'rel': CMP_BINOPS[rv['op']], 'block': b, 'line': s['cs']})
+    return out
+
+
+# ---------------------------------------------------------------------------
+# P-EFFECT: which fields of *self a method mutates
+# ---------------------------------------------------------------------------
+
+def self_field_effects(facts, cg, root, depth=3):
+    """{field index: [line,...]} for fields of *self (local _1 of `root`) that are assigned or mutably
+    borrowed in root's body, plus 'whole' when &mut *self is handed to something we cannot follow.
+    Workspace callees receiving the whole of self are followed up to `depth`."""
+    out = {}
+
+    def note(f, line):
+        out.setdefault(f, []).append(line)
+
+    def visit(body, d):
+        for _b, _j, s in body.assigns():
+            lhs = s['lhs']
+            if lhs['l'] == 1 and len(lhs['p']) >= 2 and lhs['p'][0] == '*' and isinstance(lhs['p'][1], dict) and 'f' in lhs['p'][1]:
+                note(lhs['p'][1]['f'], s['cs'])
+            rv = s['rv']
+            if rv['k'] in ('ref', 'rawptr') and rv['mut']:
+                pl = rv['pl']
+                if pl['l'] == 1 and pl['p'] and pl['p'][0] == '*':
+                    if len(pl['p']) >= 2 and isinstance(pl['p'][1], dict) and 'f' in pl['p'][1]:
+                        note(pl['p'][1]['f'], s['cs'])
+                    elif len(pl['p']) == 1:
+                        # reborrow of the whole of self: find the call that consumes it
+                        tgt = s['lhs']['l']
+                        followed = False
+                        for _bb, t in body.calls():
+                            if any(op_local(a) == tgt for a in t['args'][:1]):
+                                cbs = cg.targets(t)
+                                if cbs and d < depth:
+                                    for cb in cbs:
+                                        visit(cb, d + 1)
+                                    followed = True
+                        if not followed:
+                            note('whole', s['cs'])
+        for _bb, t in body.calls():
+            if t['args'] and op_local(t['args'][0]) == 1 and not op_place(t['args'][0])['p'] \
+                    and body.local_ty(1).startswith('&mut'):
+                cbs = cg.targets(t)
+                if cbs and d < depth:
+                    for cb in cbs:
+                        visit(cb, d + 1)
+                elif not cbs:
+                    note('whole', t['cs'])
+    visit(root, 0)
+    return out
+
+
+def const_fold_reachable(body):
+    """blocks reachable from entry when switches on constant-valued locals are folded"""
+    consts = {}
+    for _b, _j, s in body.assigns():
+        if not s['lhs']['p'] and s['rv']['k'] == 'use':
+            c = const_int(s['rv']['op'])
+            if c is not None:
+                consts.setdefault(s['lhs']['l'], set()).add(c)
+            else:
+                consts.setdefault(s['lhs']['l'], set()).add(None)
+        elif not s['lhs']['p']:
+            consts.setdefault(s['lhs']['l'], set()).add(None)
+    seen = set()
+    work = [0]
+    while work:
+        b = work.pop()
+        if b in seen:
+            continue
+        seen.add(b)
+        t = body.term(b)
+        if t['k'] == 'switch':
+            l = op_local(t['discr'])
+            v = const_int(t['discr'])
+            if v is None and l is not None and consts.get(l) and len(consts[l]) == 1 and None not in consts[l]:
+                v = next(iter(consts[l]))
+            if v is not None:
+                tgt = t['otherwise']
+                for val, tb in t['targets']:
+                    if int(val) == v:
+                        tgt = tb
+                work.append(tgt)
+                continue
+        work.extend(body.succ(b))
+    return seen
